@@ -101,6 +101,24 @@ def layout_file(n):
     return c08.PRELUDE + "".join(parts) + "int main(void) {\n" + "".join(" f%d();\n" % (n * 8 + j) for j in range(8)) + " return 0; }\n"
 
 
+LEX_FORMS = [("esc_str", b'char s[] = "\\%sx";\n'), ("esc_chr", b"int c = '\\%s';\n"), ("str", b'char s[] = "a%sb";\n'), ("chr", b"int c = '%s';\n"),
+             ("ident", b"int a%s = 1;\n"), ("comment", b"int x; /* %s */ // %s\n"), ("ppnum", b"int x = 1%s;\n"), ("pragma", b"#pragma %s\nint x;\n"),
+             ("stray", b"int x; %s\n")]
+
+
+def lex_files():
+    """accepted-or-diagnosed garbage-in family (strengthening after seeded change C12-4): every lexer context x every byte
+    1..255 except newline, one construct per tiny file (a rejected construct must not hide the next).  Closed domain:
+    9 x 254 files -> (name, bytes)."""
+    out = []
+    for form, tmpl in LEX_FORMS:
+        for b in range(1, 256):
+            if b == 10:
+                continue
+            out.append(("lex/%s-%02x" % (form, b), tmpl.replace(b"%s", bytes([b]))))
+    return out
+
+
 def expr_files(ctx, nfiles):
     """C01 vectors (ExprGen.tla, a thin slice of its closed domain) as batched programs; [] if unavailable."""
     try:
@@ -169,6 +187,11 @@ def make_corpus(ctx, tree, exprs):
         p = "%s/%s.c" % (d, re.sub(r"[^A-Za-z0-9_.~-]", "_", name))
         open(p, "w").write(text)
         add(name, p, [], name.split("/")[0])
+    for name, data in vt.subsample(lex_files(), ctx.seed, 12 if q else 1):
+        p = "%s/%s.c" % (d, name.replace("/", "_"))
+        open(p, "wb").write(data)
+        add(name, p, [], "lex")
+        items[-1]["only"] = ["-S", "-E"]          # tiny one-construct files: two option sets are enough
     ctx.cov["corpus"] = dict(total=len(items), excluded_date_time=skipped,
                              by_class={c: len([1 for x in items if x["cls"] == c]) for c in sorted(set(x["cls"] for x in items))})
     return items
@@ -293,7 +316,7 @@ class Runner:
         return [(keys[ki], res[ki]) for ki in range(len(keys))]
 
     def groups(self, items, label):
-        keys = [(it, m, f) for it in items for m in MODES for f in FLAGS]
+        keys = [(it, m, f) for it in items for m in MODES for f in FLAGS if not it.get("only") or (m in it["only"] and not f)]
         keys += [(it, "side", o) for it in items if it.get("side") for o in SIDE]
         return self.groups_of_keys(keys, label)
 
@@ -492,7 +515,9 @@ def replay(ctx, path):
         return ctx.finish(rule="replay of one recorded case")
     d = ctx.tmp("corpus")
     p = "%s/%s.c" % (d, re.sub(r"[^A-Za-z0-9_.~-]", "_", c["name"]))
-    if c["cls"] == "boot":
+    if c["cls"] == "lex":
+        open(p, "wb").write(dict(lex_files())[c["name"]])
+    elif c["cls"] == "boot":
         p = os.path.join(vt.VERIF, "seeds", c["name"])
     elif c["cls"] in ("own", "test"):
         p = "%s/%s" % (tree, c["name"].replace("own/", ""))
